@@ -154,7 +154,7 @@ def on_grid(sc, coords):
     return False
 
 
-MAGIC_SEEN = [0]
+MAGIC_SEEN = [0, 0]
 
 
 def _array(np, rnd, info, coords, enc, layout):
@@ -179,7 +179,18 @@ def _array(np, rnd, info, coords, enc, layout):
     elif enc == "compressed_segmentation":
         labs = g.integers(0, np.iinfo(dt).max, size=rnd.choice([1, 2, 5, 40]), dtype=dt,
                           endpoint=True)
-        arr = labs[g.integers(0, len(labs), size=shape)]
+        if rnd.random() < 0.35:
+            # label sets whose little-endian bytes contain each other at shifted positions
+            labs = np.array(rnd.choice([[1, 256, 512], [256, 512, 1], [5, 2 ** 32 - 1, 0],
+                                        [65536, 1, 256], [2 ** 24, 2 ** 16, 2 ** 8, 1],
+                                        [0, 1], [255, 65280, 16711680]]), dtype=dt)
+            # regions rather than noise, so that uniform blocks follow multi-label blocks
+            idx = (np.add.outer(np.add.outer(np.arange(shape[1]) // 2, np.arange(shape[2]) // 3),
+                                np.arange(shape[3]) // 2) % len(labs))
+            arr = labs[np.broadcast_to(idx, shape)]
+            MAGIC_SEEN[1] += 1
+        else:
+            arr = labs[g.integers(0, len(labs), size=shape)]
     else:
         arr = g.integers(0, np.iinfo(dt).max, size=shape, dtype=dt, endpoint=True)
     if enc == "raw" and arr.nbytes and rnd.random() < 0.2:
@@ -318,8 +329,10 @@ def run_case(case):
                 continue
             layout = rnd.choice(["C", "C", "F", "T", "slice", "BE"]) if enc != "jpeg" else \
                 rnd.choice(["C", "C", "F"])
-            m0 = MAGIC_SEEN[0]
+            m0, p0 = MAGIC_SEEN
             arr = _array(np, rnd, info, coords, enc, layout)
+            obs["byte_sparse_label_palettes"] = obs.get(
+                "byte_sparse_label_palettes", 0) + MAGIC_SEEN[1] - p0
             obs["chunks_beginning_with_container_magic"] = obs.get(
                 "chunks_beginning_with_container_magic", 0) + MAGIC_SEEN[0] - m0
             if not arr.flags["C_CONTIGUOUS"]:
@@ -458,6 +471,7 @@ def gates(obs, tier):
         "info_revised_mid_history": obs.get("info_revisions", 0) > 20,
         "chunks_beyond_2_20_voxels": obs.get("chunks_over_2_20_voxels", 0) > 0,
         "big_endian_input_arrays": obs.get("big_endian_arrays", 0) > 50,
+        "byte_sparse_label_palettes": obs.get("byte_sparse_label_palettes", 0) > 50,
         "raw_chunks_beginning_with_container_magic": obs.get(
             "chunks_beginning_with_container_magic", 0) > 50,
     }
